@@ -428,4 +428,56 @@ theorem norm2_normalize (a : List ℝ) (h : 0 < norm2 a) : norm2 (normalize a) =
   rw [norm2_map_div, Real.mul_self_sqrt (le_of_lt h)]
   exact div_self (ne_of_gt h)
 
+/-! ## quaternion interpolation: sign matching and the branch of `interpManifold` -/
+
+theorem matchSign_eq (a b : List ℝ) :
+    matchSign a b = if dot a b < 0 then b.map (fun x => -x) else b := by
+  unfold matchSign
+  have e0 : (0.0 : ℝ) = 0 := by norm_num
+  have e1 : (fun x : ℝ => -1.0 * x) = (fun x => -x) := by funext x; norm_num
+  rw [e0, e1]
+
+theorem matchSign_length (a b : List ℝ) : (matchSign a b).length = b.length := by
+  rw [matchSign_eq]; split_ifs <;> simp
+
+theorem matchSign_norm2 (a b : List ℝ) : norm2 (matchSign a b) = norm2 b := by
+  rw [matchSign_eq]; split_ifs
+  · exact norm2_vneg b
+  · rfl
+
+theorem lerpV_self (a : List ℝ) (l : ℝ) : lerpV a a l = a := by
+  induction a with
+  | nil => simp [lerpV]
+  | cons x a ih =>
+    simp only [lerpV, vscale_cons, vadd_cons] at ih ⊢
+    rw [ih]
+    have e1 : (1.0 : ℝ) = 1 := by norm_num
+    rw [e1]; congr 1; ring
+
+/-- zero distance: the first branch (no quotient is formed) -/
+theorem interpManifold_zero (a b : List ℝ) (l : ℝ) :
+    interpManifold 0 a b l = some (normalize (lerpV a b l)) := by
+  unfold interpManifold
+  simp only [prim_sqrt]
+  rw [if_pos (by rw [Real.sqrt_zero]; norm_num)]
+
+/-- a unit mixture and a distance bounded by (π/2)²: the quotient is far above the `1e-6` threshold -/
+theorem interpManifold_unit (d2 : ℝ) (a b : List ℝ) (l : ℝ) (hd : 0 < d2)
+    (hle : d2 ≤ (Real.pi / 2) * (Real.pi / 2)) (hn : norm2 (lerpV a b l) = 1) :
+    interpManifold d2 a b l = some (normalize (lerpV a b l)) := by
+  unfold interpManifold
+  simp only [prim_sqrt]
+  have hs : 0 < √d2 := Real.sqrt_pos.2 hd
+  have e0 : (0.0 : ℝ) = 0 := by norm_num
+  rw [if_neg (by rw [e0]; exact not_le.2 hs)]
+  have hs2 : √d2 ≤ 2 := by
+    have h1 : √d2 ≤ √((Real.pi / 2) * (Real.pi / 2)) := Real.sqrt_le_sqrt hle
+    rw [Real.sqrt_mul_self (by positivity)] at h1
+    have := Real.pi_le_four
+    linarith
+  rw [if_neg]
+  rw [hn, Real.sqrt_one, not_lt, le_div_iff₀ hs]
+  norm_num
+  linarith
+
 end Cv.C18
